@@ -267,6 +267,15 @@ def _validation_task(task):
                         for mk in (list, tuple):
                             sig = "C12:%s default %s:%s:Array[%s of tuples] %s in %s" % (qt, du, kind[0], mk.__name__, [(names[pair[0]], names[pair[1]]), names[other]], u)
                             _validate_object(part, sig, None, Array("lim", mk(vals), u), truth, am, lo, hi, lx, hx)
+                # ... a NaN inside a row is an amount like any other (only FLAT arrays skip NaN): with limits the
+                # array is invalid wherever the NaN stands in its row
+                inside = [i for i in fin if okv[i]][:2]
+                for i in inside:
+                    a = xs[i]
+                    for where, vals in (("first in its row", [(float("nan"), a), (a, a)]), ("second in its row", [(a, float("nan")), (a, a)]), ("last of the last row", [(a, a), (a, float("nan"))])):
+                        for mk in (list, tuple):
+                            sig = "C12:%s default %s:%s:Array[%s of tuples] NaN %s next to %s in %s" % (qt, du, kind[0], mk.__name__, where, names[i], u)
+                            _validate_object(part, sig, None, Array("lim", mk(vals), u), not has_limits, [float("nan"), amounts[i]], lo, hi, lx, hx)
     part.sample({"quantity_type": qt, "default_unit": du, "limit_kinds": [k[0] for k in LIMIT_KINDS], "units": units, "max_array_length": maxlen}, cap=1)
     return part
 
@@ -551,5 +560,4 @@ def run(ctx):
     ctx.assumptions = [
         "the oracle converts with db.Convert (judged by C01) and applies the property's definition; exact-boundary probes are used only where the conversion is exact as floats and as rationals, other probes differ from a limit by >= 1e-7 relative",
         "an explicitly passed default_unit outside explicitly passed valid_units is accepted by design (comment in AddCategory) and not judged",
-        "lists of tuples are judged on non-NaN elements only (the NaN clause speaks of flat arrays)",
     ]
